@@ -17,6 +17,9 @@ import (
 // outcome equals its solo outcome), no data race (race arm), shared program
 // unchanged (semantic fingerprint).
 
+// c08Args are the per-VM run arguments (bound to `param (PA, PB)`).
+func c08Args(i int) []ugo.Object { return []ugo.Object{ugo.Int(i*7 + 1), ugo.String(c08WIDs[i] + "-arg")} }
+
 var c08WIDs = []string{"w0", "vm-one", "thirdVM", "x"}
 
 type c08Result struct {
@@ -46,7 +49,7 @@ func c08RunVM(vm *ugo.VM, w *sim.World, args []ugo.Object) c08Result {
 
 func c08Run(rc *sim.RunCtx) {
 	t := rc.T
-	g := newGen(t, genConfig{Modules: true, Hosts: true, Consts: t.Bool(1, 2), Share: true, MaxStmts: 8})
+	g := newGen(t, genConfig{Modules: true, Hosts: true, Consts: t.Bool(1, 2), Share: true, Params: true, MaxStmts: 8})
 	src, mods := g.program()
 	mm := newModuleMap(append(append([]srcModule{}, fixedModules...), mods...))
 	noOpt := t.Bool(1, 3)
@@ -86,10 +89,10 @@ func c08Run(rc *sim.RunCtx) {
 		capped := false
 		for i := range specs {
 			sc.Steps = 0
-			a := c08RunOne(bc, sim.NewWorld(specs[i], nil), nil)
+			a := c08RunOne(bc, sim.NewWorld(specs[i], nil), c08Args(i))
 			capped = capped || sc.Capped
 			sc.Steps = 0
-			b := c08RunOne(bc, sim.NewWorld(specs[i], nil), nil)
+			b := c08RunOne(bc, sim.NewWorld(specs[i], nil), c08Args(i))
 			capped = capped || sc.Capped
 			if !a.out.Equal(b.out) || a.trace != b.trace {
 				restoreHook()
@@ -122,7 +125,7 @@ func c08Run(rc *sim.RunCtx) {
 		worlds[i] = sim.NewWorld(specs[i], nil)
 		vms[i] = ugo.NewVM(bc).SetRecover(true)
 		s.Go("vm-"+c08WIDs[i], func() {
-			conc[i] = c08RunVM(vms[i], worlds[i], nil)
+			conc[i] = c08RunVM(vms[i], worlds[i], c08Args(i))
 		})
 	}
 	// in a quarter of the runs the host aborts one VM at a drawn instruction: the others must not notice
